@@ -49,6 +49,19 @@ pub struct Env {
     pub stdin_pause_ms: Option<u64>,
     /// Deliver stdin in chunks of this size (only for commands that read stdin).
     pub stdin_chunk: usize,
+    /// read() on an input file transfers at most this many bytes per call (short reads; must not matter).
+    #[serde(default)]
+    pub read_max: Option<u64>,
+    /// Every k-th read() on an input file fails once with EINTR (std retries; must not matter).
+    #[serde(default)]
+    pub read_eintr_every: Option<u64>,
+    /// The k-th operation on an input object (open, opendir, stat, read, readdir) fails with this errno: anthem may
+    /// fail, it may never come out with different output.
+    #[serde(default)]
+    pub io_fail: Option<(u64, u32)>,
+    /// Directories whose contents are "input objects" for the three fields above (set by the caller for each run).
+    #[serde(skip)]
+    pub io_prefixes: Vec<String>,
 }
 
 impl Env {
@@ -77,6 +90,10 @@ impl Env {
             stdin_noise: false,
             stdin_pause_ms: None,
             stdin_chunk: 1 << 20,
+            read_max: None,
+            read_eintr_every: None,
+            io_fail: None,
+            io_prefixes: vec![],
         }
     }
 
@@ -124,6 +141,10 @@ impl Env {
             stdin_pause_ms: if rng.pct(12) { Some(350 + rng.below(400)) } else { None },
             crash_first_us: if rng.pct(25) { Some(*rng.pick(&[0u64, 300, 1000, 2500, 6000, 15000])) } else { None },
             stdin_chunk: *rng.pick(&[1usize, 3, 64, 4096, 1 << 20]),
+            read_max: if rng.pct(35) { Some(*rng.pick(&[1u64, 2, 7, 64, 1000])) } else { None },
+            read_eintr_every: if rng.pct(25) { Some(*rng.pick(&[2u64, 3, 10])) } else { None },
+            io_fail: None,
+            io_prefixes: vec![],
         }
     }
 
@@ -159,15 +180,20 @@ impl Env {
                 e.columns = None;
             }
             "stdin_chunk" => e.stdin_chunk = p.stdin_chunk,
+            "short_reads" => {
+                e.read_max = None;
+                e.read_eintr_every = None;
+            }
+            "io_fail" => e.io_fail = None,
             _ => {}
         }
-        if e.hash_seed.is_none() && e.dir_mode == "natural" && e.cpus.is_none() && e.clock_offset_ms.is_none() && e.clock_jump_ms.is_none() && e.heap_pad == 0 {
+        if e.hash_seed.is_none() && e.dir_mode == "natural" && e.cpus.is_none() && e.clock_offset_ms.is_none() && e.clock_jump_ms.is_none() && e.heap_pad == 0 && e.read_max.is_none() && e.read_eintr_every.is_none() && e.io_fail.is_none() {
             e.preload = false;
         }
         e
     }
 
-    pub const DIMS: &'static [&'static str] = &["hash_seed", "dir_order", "cpus", "clock", "heap_pad", "aslr", "stack_pad", "locale", "extra_vars", "cwd", "dirty_out", "crash_first", "stdin_noise", "stdin_pause", "stdin_chunk"];
+    pub const DIMS: &'static [&'static str] = &["hash_seed", "dir_order", "cpus", "clock", "heap_pad", "aslr", "stack_pad", "locale", "extra_vars", "cwd", "dirty_out", "crash_first", "stdin_noise", "stdin_pause", "stdin_chunk", "short_reads", "io_fail"];
 }
 
 #[derive(Clone, Debug, PartialEq, Eq)]
@@ -270,6 +296,19 @@ fn build_command(bins: &Binaries, args: &[String], cwd: &Path, env: &Env, extra_
         }
         if env.heap_pad > 0 {
             cmd.env("VERIF_ENV_HEAP_PAD", env.heap_pad.to_string());
+        }
+        if !env.io_prefixes.is_empty() && (env.read_max.is_some() || env.read_eintr_every.is_some() || env.io_fail.is_some()) {
+            cmd.env("VERIF_ENV_IO_PREFIX", env.io_prefixes.join(":"));
+            if let Some(n) = env.read_max {
+                cmd.env("VERIF_ENV_READ_MAX", n.to_string());
+            }
+            if let Some(k) = env.read_eintr_every {
+                cmd.env("VERIF_ENV_READ_EINTR_EVERY", k.to_string());
+            }
+            if let Some((k, e)) = env.io_fail {
+                cmd.env("VERIF_ENV_IO_FAIL_AT", k.to_string());
+                cmd.env("VERIF_ENV_IO_ERRNO", e.to_string());
+            }
         }
     }
     if env.stack_pad > 0 {
